@@ -312,6 +312,7 @@ def reset_state():
     if hasattr(UpdateCollection, '_EOR_CACHE'):
         UpdateCollection._EOR_CACHE.clear()
     _ls_reset()
+    _id_reset()
     global _NMODS
     if len(sys.modules) != _NMODS:
         _NMODS = len(sys.modules)
@@ -320,6 +321,27 @@ def reset_state():
 
 _LS_SNAPSHOT = None
 _NMODS = 0
+_ID_SNAPSHOT = None
+
+
+def _id_reset():
+    """Attribute.klass() and Capability.klass() write the looked-up code into the class (`kls.ID = what`): with a symbolic
+    code that leaves a term of one path in a class attribute read by the next.  The registered IDs are restored."""
+    global _ID_SNAPSHOT
+    from exabgp.bgp.message.open.capability.capability import Capability
+    if _ID_SNAPSHOT is None:
+        _ID_SNAPSHOT = []
+        for reg in (Attribute.registered_attributes, Capability.registered_capability):
+            for k in list(dict.keys(reg)):
+                kl = dict.__getitem__(reg, k)
+                if 'ID' in vars(kl):
+                    _ID_SNAPSHOT.append((kl, vars(kl)['ID']))
+        uk = getattr(Capability, 'unknown_capability', None)
+        if uk is not None and 'ID' in vars(uk):
+            _ID_SNAPSHOT.append((uk, vars(uk)['ID']))
+    for kl, v in _ID_SNAPSHOT:
+        if vars(kl).get('ID') is not v:
+            setattr(kl, 'ID', v)
 
 
 def _ls_reset():
@@ -347,9 +369,22 @@ def families():
     return out
 
 
-def session(addpath=False, asn4=True, extended=False):
+EXTNH = ((1, 1, 2), (1, 128, 2), (2, 1, 1))   # RFC 8950 (nlri afi, safi, next-hop afi) both sides announce
+
+
+def session(addpath=False, asn4=True, extended=False, extnh=False):
     """every configurable family negotiated; aigp enabled (AIGP answers Discard otherwise)"""
-    key = (bool(addpath), bool(asn4), bool(extended))
+    key = (bool(addpath), bool(asn4), bool(extended), bool(extnh))
+    if key not in _SESS and extnh:
+        fams = [(a, s) for a, s in families() if (int(a), int(s)) not in UNCONFIGURABLE]
+        names = ['%s %s' % (a, s) for a, s in fams]
+        codes = [(int(a), int(s)) for a, s in fams]
+        block = '    nexthop {\n%s    }\n' % ''.join('        %s %s %s;\n' % (AFI.from_int(a), SAFI.from_int(s_), AFI.from_int(n)) for a, s_, n in EXTNH)
+        conf = S.mk_conf(families=names, nexthop=True, extra=block)
+        body = S.peer_open_body(families=codes, nexthop=EXTNH, layout='extended')
+        _SESS[key] = S.negotiated_for(S.neighbor_from(conf), Direction.IN, body)
+        if not _SESS[key].nexthop:
+            raise RuntimeError('C03: extended next-hop was not negotiated')
     if key not in _SESS:
         fams = [(a, s) for a, s in families() if (int(a), int(s)) not in UNCONFIGURABLE]
         names = ['%s %s' % (a, s) for a, s in fams]
@@ -365,7 +400,7 @@ def session(addpath=False, asn4=True, extended=False):
     return _SESS[key]
 
 
-SESSIONS = {'asn4': dict(), 'asn2': dict(asn4=False), 'addpath': dict(addpath=True)}
+SESSIONS = {'asn4': dict(), 'asn2': dict(asn4=False), 'addpath': dict(addpath=True), 'extnh': dict(extnh=True)}
 
 
 # ---------------------------------------------------------------------------------------------------- the observation
@@ -503,12 +538,17 @@ def _site(exc):
 
 # ---------------------------------------------------------------------------------------------------- free bodies
 
+BUDGET_FREE = {'quick': 3000, 'thorough': 60000}
+_TIER = ['quick']
 TYPES = {'open': 1, 'update': 2, 'notification': 3, 'keepalive': 4, 'route-refresh': 5, 'operational': 6, 'unregistered': 7}
 
 
 def h_free(ctx, tname, lengths, sess='asn4'):
     neg = session(**SESSIONS[sess])
     L = lengths[0] if len(lengths) == 1 else ctx.pick('L', lengths)
+    if over_budget(ctx, ('free', tname, L), BUDGET_FREE[_TIER[0]]):
+        ctx.note('class', 'budget-cut:free:%s L=%d' % (tname, L))
+        return ('budget-cut', L)
     body = ctx.bytes('b', L)
     mtype = TYPES[tname]
     if tname == 'unregistered':
@@ -705,6 +745,27 @@ class Plan:
         return sorted(want)
 
 
+_SPENT = {}
+BUDGET = {'quick': 120, 'thorough': 2500}
+
+
+def over_budget(ctx, key, limit):
+    """at most `limit` paths per (decoder, variant, size): a decoder whose fan-out explodes (flow operators, name tables
+    enumerated value by value) is cut there, the cut is a path of class budget-cut and the unit is reported TRUNCATED
+    (engine.cut), never as exhausted.  The decision rides on the input `cut` so that the replay takes the same way."""
+    cut = ctx.int('cut', 0, 1)
+    if not ctx.sym:
+        return bool(cut)
+    n = _SPENT.get(key, 0)
+    over = n >= limit
+    ctx.assume(cut == (1 if over else 0))
+    if over:
+        _core.engine().cut = True
+    else:
+        _SPENT[key] = n + 1
+    return over
+
+
 def h_group(ctx, plans, tier):
     plan = plans[0] if len(plans) == 1 else ctx.pick('decoder', plans)
     vi = 0 if len(plan.variants) == 1 else ctx.choice('variant', len(plan.variants))
@@ -712,6 +773,9 @@ def h_group(ctx, plans, tier):
     neg = session(**SESSIONS[sess])
     sizes = plan.sizes(tier, vi)
     L = sizes[0] if len(sizes) == 1 else ctx.pick('L', sizes)
+    if over_budget(ctx, (plan.name, tag, L), BUDGET[tier]):
+        ctx.note('class', 'budget-cut:%s%s L=%d' % (plan.name, ':' + tag if tag else '', L))
+        return (plan.name, tag, L, 'budget-cut')
     items = plan.make(Src(ctx), L, tag)
     body = K.mk(ctx, items)
     ctx.cover('reached:' + plan.name)
@@ -722,6 +786,48 @@ def h_group(ctx, plans, tier):
 
 
 # ---------------------------------------------------------------------------------------------------- plans (registries read LIVE)
+
+
+class Sfx:
+    """a source whose variable names carry a suffix: a second copy of a shape gets its own symbolic octets"""
+
+    def __init__(self, F, sfx):
+        self.F, self.sfx = F, sfx
+
+    def sym(self, name, n):
+        return self.F.sym(name + self.sfx, n)
+
+    def near(self, name, n, size=1, slack=1):
+        return self.F.near(name + self.sfx, n, size, slack)
+
+    def pick(self, name, options):
+        return self.F.pick(name + self.sfx, options)
+
+    def byte(self, name):
+        return self.F.byte(name + self.sfx)
+
+    def int(self, name, lo, hi):
+        return self.F.int(name + self.sfx, lo, hi)
+
+
+def first_accepted(plan):
+    """the smallest payload size at which the probe saw the plan's decoder accept something (0 when none)"""
+    plan.sizes('quick')
+    acc = Plan._sizes[(plan.name, 'quick')][1]
+    return acc[0] if acc else 0
+
+
+def tlv_plans(plans, name, wrap, mk, repeat_group=None, **kw):
+    """one TLV: wrap(mk(F, L)) over the sizes; and the loop around it: two and three TLVs of the size the decoder accepts,
+    back to back (a loop which does not advance, or advances wrongly, shows here)"""
+    single = Plan(name, lambda F, L: wrap(mk(F, L)), **kw)
+    plans.append(single)
+
+    def b_repeated(F, L):
+        n = first_accepted(single)
+        return wrap(mk(Sfx(F, '.a'), n) + mk(Sfx(F, '.b'), n) + (mk(Sfx(F, '.c'), n) if L else []))
+    plans.append(Plan(name + ':repeated', b_repeated, top=1, keep=2, base=(0, 1), group=repeat_group or (name + ':repeated')))
+    return single
 
 
 def attribute_plans():
@@ -737,7 +843,13 @@ def attribute_plans():
         flag = kflag & 0xEF
         both = ('asn4', 'asn2') if code in (2, 7, 17, 18) else ('asn4',)
         if code in (14, 15):
-            continue   # the NLRI plans
+            # the value after a concrete family: every truncation of the next hop / reserved octet / NLRI (the NLRI
+            # decoders themselves are the nlri: plans)
+            for a_, s_ in ((1, 1), (2, 1), (1, 128), (25, 70)):
+                plans.append(Plan('attr:%d:%s-%s' % (code, AFI.from_int(a_), SAFI.from_int(s_)), lambda F, L, flag=flag, code=code, a_=a_, s_=s_:
+                                  K.body([], BASE_ATTRS + [tlv(flag, code, be(a_, 2) + [s_] + F.sym('v', L))], []), top=30, keep=8, group='attr:%d' % code))
+            plans.append(Plan('attr:%d:short' % code, lambda F, L, flag=flag, code=code: K.body([], BASE_ATTRS + [tlv(flag, code, [0, 1, 1][:L])], []), top=3, keep=4, base=(0, 1, 2, 3), group='attr:%d' % code))
+            continue
         plans.append(Plan('attr:%d' % code, lambda F, L, flag=flag, code=code: upd_attr(flag, code, F.sym('v', L)), sess=both, top=40, weight=30))
         if code in (2, 17):
             for t in sorted(ASPath._DISPATCH) + [9]:
@@ -763,31 +875,34 @@ def attribute_plans():
                 plans.append(Plan('attr:23:tunnel-%d' % tt, lambda F, L, flag=flag, tt=tt: upd_attr(flag, 23, be(tt, 2) + F.near('tl', L, 2) + F.sym('v', L)), top=12, keep=8))
             tt = sorted(TunnelTypeTLV.registered_tunnel_types)[0]
             for sub in sorted(SubTLV.registered_subtypes) + [77, 200]:
-                def b_sub(F, L, flag=flag, tt=tt, sub=sub):
-                    inner = [sub] + F.near('sl', L, 1 if sub < 128 else 2) + F.sym('v', L)
-                    return upd_attr(flag, 23, be(tt, 2) + be(len(inner), 2) + inner)
-                plans.append(Plan('attr:23:sub-%d' % sub, b_sub, top=30, keep=10))
+                tlv_plans(plans, 'attr:23:sub-%d' % sub, lambda items, flag=flag, tt=tt: upd_attr(flag, 23, be(tt, 2) + be(len(items), 2) + items),
+                          lambda F, L, sub=sub: [sub] + F.near('sl', L, 1 if sub < 128 else 2) + F.sym('v', L), top=30, keep=10, repeat_group='attr:23:repeated')
             if 128 in SubTLV.registered_subtypes:
                 subs = sorted(set(int(k.SUBTYPE) for k in vars(seglist).values() if isinstance(k, type) and isinstance(getattr(k, 'SUBTYPE', None), int)
                                   and not issubclass(k, SubTLV) and k.__module__ == seglist.__name__))
                 for sst in subs + [99]:
-                    def b_seg(F, L, flag=flag, tt=tt, sst=sst):
-                        inner2 = [sst] + F.near('ssl', L) + F.sym('v', L)
-                        inner = [128] + be(1 + len(inner2), 2) + F.sym('rsv', 1) + inner2
+                    def w_seg(items, flag=flag, tt=tt):
+                        inner = [128] + be(1 + len(items), 2) + [0] + items
                         return upd_attr(flag, 23, be(tt, 2) + be(len(inner), 2) + inner)
-                    plans.append(Plan('attr:23:segment-%d' % sst, b_seg, top=44, keep=8))
+                    tlv_plans(plans, 'attr:23:segment-%d' % sst, w_seg, lambda F, L, sst=sst: [sst] + F.near('ssl', L) + F.sym('v', L), top=44, keep=8,
+                              group='attr:23:segments-%d' % (subs.index(sst) // 4 if sst in subs else 9), repeat_group='attr:23:segments-repeated')
         elif code == 26:
-            plans.append(Plan('attr:26:tlv', lambda F, L, flag=flag: upd_attr(flag, 26, [F.pick('t', (1, 2))] + F.near('tl', L + 3, 2) + F.sym('v', L)), top=12, keep=8))
+            for t in (1, 2):
+                tlv_plans(plans, 'attr:26:tlv-%d' % t, lambda items, flag=flag: upd_attr(flag, 26, items), lambda F, L, t=t: [t] + F.near('tl', L + 3, 2) + F.sym('v', L),
+                          top=12, keep=6, group='attr:26:tlvs', repeat_group='attr:26:repeated')
         elif code == 29:
             for t, k in sorted(LinkState.registered_lsids.items()) + [(4242, None)]:
-                plans.append(Plan('attr:29:tlv-%d' % t, lambda F, L, flag=flag, t=t: upd_attr(flag, 29, be(t, 2) + F.near('tl', L, 2) + F.sym('v', L)), top=40, keep=10, group='attr:29:tlvs-%d' % (len([p for p in plans if p.name.startswith('attr:29:tlv-') and ':sub-' not in p.name]) // 6)))
+                n29 = len([p for p in plans if p.name.startswith('attr:29:tlv-') and ':sub-' not in p.name and not p.name.endswith(':repeated')])
+                tlv_plans(plans, 'attr:29:tlv-%d' % t, lambda items, flag=flag: upd_attr(flag, 29, items), lambda F, L, t=t: be(t, 2) + F.near('tl', L, 2) + F.sym('v', L),
+                          top=40, keep=10, group='attr:29:tlvs-%d' % (n29 // 6), repeat_group='attr:29:repeated-%d' % (n29 // 12))
                 subs = getattr(k, 'registered_subsubtlvs', None)
                 if subs:
                     for st in sorted(subs) + [9999]:
                         plans.append(Plan('attr:29:tlv-%d:sub-%d' % (t, st), lambda F, L, flag=flag, t=t, st=st, k=k: b_ls_sub(F, L, flag, t, st), top=16, keep=8, group='attr:29:sub-tlvs'))
         elif code == 40:
             for t in sorted(set(PrefixSid.registered_srids) | {5, 6, 77}):
-                plans.append(Plan('attr:40:tlv-%d' % t, lambda F, L, flag=flag, t=t: upd_attr(flag, 40, [t] + F.near('tl', L, 2) + F.sym('v', L)), top=30, keep=10))
+                tlv_plans(plans, 'attr:40:tlv-%d' % t, lambda items, flag=flag: upd_attr(flag, 40, items), lambda F, L, t=t: [t] + F.near('tl', L, 2) + F.sym('v', L),
+                          top=30, keep=10, repeat_group='attr:40:repeated')
     return plans
 
 
@@ -833,7 +948,7 @@ def nlri_plans(th=False):
 
     variants = [('reach', 'asn4'), ('unreach', 'asn4'), ('addpath-reach', 'addpath')] + ([('addpath-unreach', 'addpath')] if th else [])
 
-    def add(name, nlri, afi, safi, inner=False, **kw):
+    def add(name, nlri, afi, safi, inner=False, two=False, **kw):
         """through MP_REACH (announce) and MP_UNREACH (withdraw); with ADD-PATH the path identifier precedes the NLRI
         (inner: a sub-TLV of the NLRI, the wrappers were varied by the plan of the NLRI itself: MP_REACH only)"""
         def build(F, L, tag):
@@ -844,7 +959,13 @@ def nlri_plans(th=False):
         # would re-read the four octets as their own header
         klass = NLRI.registered_nlri.get('%s/%s' % (AFI.from_int(afi), SAFI.from_int(safi)))
         vs = variants if (klass is not None and issubclass(klass, INETBase)) else [v for v in variants if not v[0].startswith('addpath')]
-        plans.append(Plan(name, build, variants=vs[:1] if inner and not th else vs, **kw))
+        single = Plan(name, build, variants=vs[:1] if inner and not th else vs, **kw)
+        plans.append(single)
+        if two:
+            def build2(F, L):
+                n = first_accepted(single)
+                return upd_reach(afi, safi, nlri(Sfx(F, '.a'), n) + nlri(Sfx(F, '.b'), n) + (nlri(Sfx(F, '.c'), n) if L else []))
+            plans.append(Plan(name + ':repeated', build2, top=1, keep=2, base=(0, 1), group='nlri:%s-%s:repeated' % (AFI.from_int(afi), SAFI.from_int(safi))))
 
     for afi_, safi_ in families():
         a, s = int(afi_), int(safi_)
@@ -854,24 +975,24 @@ def nlri_plans(th=False):
         routed = (a, s) == (25, 70) or s in (5, 85, 133, 134) or a == 16388
         add('nlri:%s' % fam, lambda F, L: F.sym('n', L), a, s, top=5 if not routed else 6, keep=6, weight=40)
         if not routed:
-            add('nlri:%s:one' % fam, lambda F, L: b_one(F, L), a, s, top=44, keep=8, weight=30)
+            add('nlri:%s:one' % fam, lambda F, L: b_one(F, L), a, s, top=44, keep=8, weight=30, two=True)
         if (a, s) == (25, 70):
             for code in sorted(EVPN.registered_evpn) + [0x7f]:
-                add('nlri:%s:type-%d' % (fam, code), lambda F, L, code=code: [code] + F.near('len', L) + F.sym('n', L), a, s, top=64, weight=30)
+                add('nlri:%s:type-%d' % (fam, code), lambda F, L, code=code: [code] + F.near('len', L) + F.sym('n', L), a, s, top=64, weight=30, two=True)
         elif s == 5:
             for code in sorted(MVPN.registered_mvpn) + [0x7f]:
-                add('nlri:%s:type-%d' % (fam, code), lambda F, L, code=code: [code] + F.near('len', L) + F.sym('n', L), a, s, top=52, weight=30)
+                add('nlri:%s:type-%d' % (fam, code), lambda F, L, code=code: [code] + F.near('len', L) + F.sym('n', L), a, s, top=52, weight=30, two=True)
         elif s == 85:
             for key in sorted(MUP.registered_mup) + ['1:99']:
                 arch, code = [int(x) for x in key.split(':')]
-                add('nlri:%s:type-%d-%d' % (fam, arch, code), lambda F, L, arch=arch, code=code: [arch] + be(code, 2) + F.near('len', L) + F.sym('n', L), a, s, top=72, weight=30)
+                add('nlri:%s:type-%d-%d' % (fam, arch, code), lambda F, L, arch=arch, code=code: [arch] + be(code, 2) + F.near('len', L) + F.sym('n', L), a, s, top=72, weight=30, two=True)
         elif a == 16388:
             vpn = s == 72
             for code in sorted(BGPLS.registered_bgpls) + [0x7f]:
                 def b_ls(F, L, code=code, vpn=vpn):
                     rd = F.sym('rd', 8) if vpn else []
                     return be(code, 2) + F.near('len', L + len(rd), 2) + rd + F.sym('n', L)
-                add('nlri:%s:type-%d' % (fam, code), b_ls, a, s, top=24, weight=30)
+                add('nlri:%s:type-%d' % (fam, code), b_ls, a, s, top=24, weight=30, two=True)
                 klass = BGPLS.registered_bgpls.get(code)
                 if klass is None:
                     continue
@@ -903,10 +1024,15 @@ def nlri_plans(th=False):
         if (a, s) in UNCONFIGURABLE:
             continue
         one = {1: [24, 10, 0, 0], 2: [32, 0x20, 1, 0x0d, 0xb8]}.get(a) if s in (1, 2) else []
-        plans.append(Plan('nexthop:%s-%s' % (afi_, safi_), lambda F, L, a=a, s=s, one=one: upd_reach(a, s, one, F.sym('nh', L)), top=44, keep=8, cover=('refused',) if not one else ('decoded', 'refused'), group='nexthop:%s' % afi_))
+        for sess in ('asn4', 'extnh'):
+            plans.append(Plan('nexthop:%s-%s%s' % (afi_, safi_, '' if sess == 'asn4' else ':extended-next-hop-session'),
+                              lambda F, L, a=a, s=s, one=one: upd_reach(a, s, one, F.sym('nh', L)), top=44, keep=8, sess=(sess,),
+                              cover=('refused',) if not one else ('decoded', 'refused'), group='nexthop:%s%s' % (afi_, '' if sess == 'asn4' else ':extended')))
     # a family that is registered but not negotiated, and one that is not registered at all
     plans.append(Plan('family:not-negotiated', lambda F, L: upd_reach(*F.pick('fam', sorted(UNCONFIGURABLE)), F.sym('n', L), nh=[192, 0, 2, 1]), top=6, cover=('refused',)))
-    plans.append(Plan('family:unknown', lambda F, L: (lambda v: K.body([], BASE_ATTRS + [tlv(0x80, F.pick('code', (14, 15)), v)], []))(F.sym('fam', 3) + F.sym('n', L)), top=6, cover=('refused',)))
+    # a family nobody registered (AFI/SAFI concrete: the registry key is a rendered name, a symbolic one would be sampled)
+    plans.append(Plan('family:unknown', lambda F, L: (lambda v: K.body([], BASE_ATTRS + [tlv(0x80, F.pick('code', (14, 15)), v)], []))(
+        list(F.pick('fam', ((0, 3, 1), (0, 1, 99), (255, 255, 255), (0, 0, 0)))) + F.sym('n', L)), top=8, keep=6, cover=('refused',)))
     return plans
 
 
@@ -1130,6 +1256,7 @@ def h_many(ctx, ks, transitive, msg_size=4096):
 
 def units(tier):
     th = tier == 'thorough'
+    _TIER[0] = tier
     us = []
     T = 1500 if th else 300
     top = {'open': (12, 14), 'update': (6, 7), 'notification': (5, 6), 'keepalive': (2, 3), 'route-refresh': (6, 7), 'operational': (8, 10), 'unregistered': (2, 3)}
